@@ -634,6 +634,7 @@ func runC17(c *Ctx) {
 	runC17Fits(c, funcs)
 	runC17FreshBatch(c, funcs)
 	runC17Round5(c)
+	runC17LimitRecheck(c)
 }
 
 func entryInstrOf(b *ssa.BasicBlock) ssa.Instruction { return b.Instrs[0] }
